@@ -367,6 +367,7 @@ type explorer struct {
 	nLoops   int
 	nCarried int
 	havoc    map[*ssa.BasicBlock]map[*ssa.Alloc]bool // loop header -> cells to havoc
+	havocF   map[*ssa.BasicBlock]map[psFieldKey]bool   // loop header -> fields of local structs written in the loop
 	rerun    bool
 	carried  map[int][]*T          // loop instance -> ... sources per carried id
 	carSrc   map[int][]*T          // carried id -> back-edge sources
@@ -379,8 +380,15 @@ type explorer struct {
 }
 
 type carriedOrigin struct {
-	phi  *ssa.Phi
-	cell cellKey
+	phi   *ssa.Phi
+	cell  cellKey
+	field string // key into state.fields: a field of a local struct that is updated inside the loop
+}
+
+// psFieldKey: a field of a struct-typed local (an Alloc), as loop-carried state.
+type psFieldKey struct {
+	al *ssa.Alloc
+	f  string
 }
 
 type closureVal struct {
@@ -407,7 +415,7 @@ func (p *Prog) Paths(entry *ssa.Function, opts PSOpts) []*Path {
 	}
 	g := p.CG()
 	x := &explorer{p: p, g: g, opts: opts, entry: entry, family: map[*ssa.Function]bool{},
-		havoc: map[*ssa.BasicBlock]map[*ssa.Alloc]bool{}, loopsOf: map[*ssa.Function]map[*ssa.BasicBlock]map[*ssa.BasicBlock]bool{}}
+		havoc: map[*ssa.BasicBlock]map[*ssa.Alloc]bool{}, havocF: map[*ssa.BasicBlock]map[psFieldKey]bool{}, loopsOf: map[*ssa.Function]map[*ssa.BasicBlock]map[*ssa.BasicBlock]bool{}}
 	for _, f := range p.Funcs {
 		if g.SameSCC(entry, f) || f == entry {
 			x.family[f] = true
@@ -795,6 +803,88 @@ func (x *explorer) enterLoop(st *state, fr *frame, h, prev *ssa.BasicBlock, body
 		x.loopCars[li.id] = append(x.loopCars[li.id], ct.N)
 		st.cells[ck] = ct
 	}
+	// fields of a struct local of this function that the loop body (or a helper it hands the struct's address to)
+	// updates: the same loop-carried state, kept in a struct instead of separate variables
+	var fks []psFieldKey
+	for fk := range x.havocF[h] {
+		fks = append(fks, fk)
+	}
+	sort.Slice(fks, func(i, j int) bool {
+		if fks[i].al.Pos() != fks[j].al.Pos() {
+			return fks[i].al.Pos() < fks[j].al.Pos()
+		}
+		return fks[i].f < fks[j].f
+	})
+	for _, fk := range fks {
+		if fk.al.Parent() != fr.fn {
+			continue
+		}
+		obj, ok := st.env[envKey{fr.id, fk.al}]
+		if !ok || obj.Op != "fresh" {
+			continue
+		}
+		key := obj.String() + "|" + fk.f
+		cur, ok := st.fields[key]
+		if !ok {
+			cur = x.zeroField(st, obj, fk)
+		}
+		x.nCarried++
+		short := fk.f
+		if i := strings.LastIndex(short, "."); i >= 0 {
+			short = short[i+1:]
+		}
+		ct := &T{Op: "carried", Name: short, N: x.nCarried, V: fk.al, Typ: nil}
+		x.carInit[ct.N] = cur
+		x.carOf[ct.N] = carriedOrigin{field: key}
+		x.loopCars[li.id] = append(x.loopCars[li.id], ct.N)
+		st.fields[key] = ct
+	}
+}
+
+// zeroField: the value of a field of a struct local that has not been stored to yet: the zero value, unless the
+// struct was overwritten as a whole.
+func (x *explorer) zeroField(st *state, obj *T, fk psFieldKey) *T {
+	for _, e := range st.effects {
+		if e.Kind == "ptrset" && len(e.Args) > 0 && e.Args[0].String() == obj.String() {
+			return &T{Op: "field", Name: fk.f, Args: []*T{obj}}
+		}
+	}
+	stt, ok := fk.al.Type().Underlying().(*types.Pointer).Elem().Underlying().(*types.Struct)
+	if !ok {
+		return &T{Op: "field", Name: fk.f, Args: []*T{obj}}
+	}
+	for i := 0; i < stt.NumFields(); i++ {
+		if n := stt.Field(i).Name(); n == fk.f || strings.HasSuffix(fk.f, "."+n) {
+			return zeroTerm(stt.Field(i).Type())
+		}
+	}
+	return &T{Op: "field", Name: fk.f, Args: []*T{obj}}
+}
+
+// noteFieldWrite: a store to a field of a struct local that existed before an active loop of its function was
+// entered makes the field loop-carried.
+func (x *explorer) noteFieldWrite(st *state, obj *T, f string) {
+	al, ok := obj.V.(*ssa.Alloc)
+	if !ok || obj.Op != "fresh" {
+		return
+	}
+	for _, l := range st.loops {
+		if l.header.Parent() != al.Parent() {
+			continue
+		}
+		seq, ok := st.cellSeq[cellKey{l.frame, al}]
+		if !ok || seq > l.seq {
+			continue
+		}
+		if x.havocF[l.header] == nil {
+			x.havocF[l.header] = map[psFieldKey]bool{}
+		}
+		fk := psFieldKey{al, f}
+		if !x.havocF[l.header][fk] {
+			x.havocF[l.header][fk] = true
+			x.rerun = true
+		}
+	}
 }
 
 func (x *explorer) backEdge(st *state, fr *frame, h, prev *ssa.BasicBlock, l loopInst) {
@@ -811,6 +901,10 @@ func (x *explorer) backEdge(st *state, fr *frame, h, prev *ssa.BasicBlock, l loo
 		if o.phi != nil {
 			if pi >= 0 {
 				v = x.val(st, fr, o.phi.Edges[pi])
+			}
+		} else if o.field != "" {
+			if fv, ok := st.fields[o.field]; ok {
+				v = x.subst(st, fv)
 			}
 		} else {
 			v = x.subst(st, st.cells[o.cell])
@@ -1586,6 +1680,7 @@ func (x *explorer) store(st *state, fr *frame, addr, v *T, pos token.Pos) {
 		obj := addr.Args[0]
 		f := strings.TrimPrefix(addr.Name, "field:")
 		st.fields[obj.String()+"|"+f] = v
+		x.noteFieldWrite(st, obj, f)
 		if obj.Op == "fresh" {
 			// initialising a new object: not a write into existing state, but visible to rules
 			x.effect(st, fr, Effect{Kind: "fieldinit", Callee: f, Args: []*T{obj, v}, Pos: pos})
